@@ -158,6 +158,15 @@ def build_config(topo):
         if logic["multiball"].get("ball_locks"):
             mb["ball_locks"] = logic["multiball"]["ball_locks"]
         cfg["multiballs"] = {"mb": mb}
+        if logic.get("multiball2"):
+            mb2 = {"ball_count": logic["multiball2"].get("ball_count", 1), "ball_count_type": "add",
+                   "shoot_again": "0s", "start_events": "ev_mb2_start", "stop_events": "ev_mb_stop",
+                   "enable_events": "ball_started"}
+            if logic["multiball2"].get("ball_locks"):
+                mb2["ball_locks"] = logic["multiball2"]["ball_locks"]
+            cfg["multiballs"]["mb2"] = mb2
+    if logic.get("multiball_lock"):
+        cfg["modes"] = ["m1"]
     if logic.get("ball_hold"):
         cfg["ball_holds"] = {"bh": {"hold_devices": logic["ball_hold"]["device"],
                                     "balls_to_hold": logic["ball_hold"].get("balls_to_hold", 1),
@@ -165,6 +174,16 @@ def build_config(topo):
                                     "release_one_events": "ev_release_one",
                                     "release_all_events": "ev_release_all"}}
     return cfg
+
+
+def build_modes(topo):
+    """Mode configs (multiball_locks are only valid in modes)."""
+    ml = topo.get("logic", {}).get("multiball_lock")
+    if not ml:
+        return None
+    return {"m1": {"mode": {"start_events": "ball_started", "priority": 100},
+                   "multiball_locks": {"lock1": {"lock_devices": ml["device"], "balls_to_lock": ml["balls_to_lock"],
+                                                 "reset_count_for_current_player_events": "ev_mb_start, ev_mb2_start"}}}}
 
 
 # ---------------------------------------------------------------------------------------------------------
@@ -188,6 +207,7 @@ class PDev:
         self.rest_since = {}                     # ball id -> time it came to rest here
         self.plunge_pending = False
         self.entrance_busy_until = -1.0
+        self.leaving_until = -1.0                # entrance-counted: an ejected ball is on its way out until then
         self.full_timeout = d.get("full_timeout_ms", 0) / 1000.0   # >0: the filling ball rests on the entrance switch
         self.entrance_held = False                                   # a ball rests on the entrance switch
         self.coil_on = False
@@ -263,6 +283,8 @@ class World:
         self.deliveries = {}      # target name -> balls that physically arrived there after an MPF/player launch
         self.launch_log = []      # (t, dev, outcome) for C05 retry clause
         self.arrival_log = []     # (t, destination) of every physical arrival
+        self.service_pulse = False    # True while the harness pulses a coil through the Driver API (coil test)
+        self.service_log = []     # (t, device) of those pulses
         self.listeners = []       # callbacks(kind, **info) for the checks
         self.closed = False
         global ACTIVE
@@ -337,10 +359,14 @@ class World:
         if name is None:
             return
         pd = self.devs[name]
-        self._emit("coil", dev=name, action=action)
+        by = "service" if self.service_pulse else "coil"     # coil test / service menu, not MPF's ball logic
+        if by == "coil":
+            self._emit("coil", dev=name, action=action)
         if pd.ejector in ("pulse", "mech_coil"):
             if action == "pulse":
-                self.try_launch(pd, by="coil")
+                if by == "service":
+                    self.service_log.append((self.now(), name))
+                self.try_launch(pd, by=by)
         elif pd.ejector == "enable":
             if action == "enable" and not pd.coil_on:
                 pd.coil_on = True
@@ -414,6 +440,8 @@ class World:
         leave = self._u(0.01, 0.08)
         if pd.counter == "switch":
             pd.leaving.add(slot)
+        else:
+            pd.leaving_until = self.now() + leave
         self._log("launch", pd.name, outcome, ball)
         self.after(leave, self._ball_leaves, pd, slot, ball, outcome, by)
 
@@ -487,6 +515,14 @@ class World:
         else:
             if td.entrance_held or len(td.inside) >= td.capacity:
                 self._bounce(ball, src, dst, by_mpf)
+                return
+            if self.now() <= td.leaving_until:
+                # an ejected ball is on its way out of the magazine right now: no ball enters in these few ten ms
+                # (an entrance switch cannot tell such a ball from one that fills the device; see ASSUMPTIONS)
+                self.stats["arrivals"] -= 1
+                self.arrival_log.pop()
+                self.after(td.leaving_until - self.now() + self._u(0.03, 0.1), self._arrive, ball, src, dst,
+                           by_mpf, outcome)
                 return
             if self.now() < td.entrance_busy_until:
                 # two balls cannot pass one entrance switch at the same time: the second one queues behind the first
@@ -574,6 +610,19 @@ class World:
         self.balls[ball] = ("transit", "playfield", dst, self.now() + t, "loose")
         self._log("loose_to", dst, ball)
         self.after(t, self._arrive, ball, "playfield", dst, False)
+        return True
+
+    def service_pulse_coil(self, dev):
+        """Somebody pulses the eject coil of a pulse-coil device from the service menu / coil test (public Driver API)."""
+        pd = self.devs.get(dev)
+        if pd is None or pd.ejector != "pulse":
+            return False
+        self.stats["service_pulses"] = self.stats.get("service_pulses", 0) + 1
+        self.service_pulse = True
+        try:
+            self.machine.coils["c_" + dev].pulse()
+        finally:
+            self.service_pulse = False
         return True
 
     def press(self, switch_name, hold=0.05):
